@@ -32,9 +32,9 @@ def oracle_one(ctx, src, r, astblock=None):
         astblock = core.batch("impl", "ast", [src])[0]
     if astblock.startswith("PANIC") or astblock.startswith("DIED"):
         return False, "front end crashed: " + astblock.strip()[:200]
-    if r["status"] == "timeout":
-        return False, "did not finish within the time limit"
     if astblock.startswith("ERR"):
+        if r["status"] == "timeout":
+            return False, "a rejected input did not finish within the time limit"
         f = astblock.split()
         l, c = (f[3] if f[1] == "Lex" else f[2]).split(":")
         if r["status"] != "103":
@@ -86,10 +86,12 @@ def run(ctx, model_ok):
         cases = [("print(\"ran\")\n" + srcs[i] if (label in ("short", "unicode") and i % 2) else srcs[i]) for i in pick]
         need = [c for c in cases]
         blocks = core.batch("impl", "ast", need)
-        res = core.cli_batch(need)
+        res = core.cli_batch(need, timeout=5)
         ctx.count(label + ":cli", len(need))
         ctx.cov["cli_reconfirmed"] += len(need)
         for s, b, r in zip(need, blocks, res):
+            if r["status"] == "timeout" and not b.startswith("ERR"):
+                ctx.exclude("accepted_program_still_running_after_5s")   # a valid program may loop; not a front-end matter
             ok, why = oracle_one(ctx, s, r, b)
             if not ok:
                 ctx.violation(why, s, {"cli": r, "front_end": b[:500]})
